@@ -3,6 +3,7 @@ import Mathlib.Algebra.Ring.GrindInstances
 import CirqVerif.Props.C03b
 import CirqVerif.Props.C19b
 import CirqVerif.Props.C04Rules
+import CirqVerif.Props.C09b
 /-!
 # Non-vacuity: the hypotheses of the symbolic gate theorems hold in the intended model
 
@@ -102,5 +103,21 @@ theorem cEnv_fsim_hyps (θ φ : ℝ) :
   · simp only [cEnv, e1]
   · simp only [cEnv, e1]
   · simp only [cEnv]; congr 1; push_cast; field_simp
+
+/-- complex conjugation satisfies `LawfulConj` (Props/C09b) … -/
+theorem cEnv_lawfulConj : LawfulConj cEnv (starRingEnd ℂ) where
+  conj_zero := map_zero _
+  conj_one := map_one _
+  conj_neg x := map_neg _ x
+  conj_mul x y := map_mul _ x y
+  conj_I := Complex.conj_I
+  conj_sqrt _ := Complex.conj_ofReal _
+
+/-- … and the weights of a probability add up to one: the hypothesis of the trace-preservation theorems holds for every `0 ≤ p ≤ 1` -/
+theorem cEnv_weights (p : ℝ) (h0 : 0 ≤ p) (h1 : p ≤ 1) :
+    cEnv.sqrt (cEnv.oneA - p) * cEnv.sqrt (cEnv.oneA - p) + cEnv.sqrt p * cEnv.sqrt p = 1 := by
+  simp only [cEnv]
+  rw [← Complex.ofReal_mul, ← Complex.ofReal_mul, Real.mul_self_sqrt (by linarith), Real.mul_self_sqrt h0]
+  push_cast; ring
 
 end CirqVerif.NonVacuity
